@@ -1,6 +1,7 @@
 #!/bin/sh
 # every seeded change x every check (quick tier), results as JSON lines in /tmp/seedmatrix.jsonl
-export VERIF_WORKERS=${VERIF_WORKERS:-6}
+export VERIF_WORKERS=${VERIF_WORKERS:-8}
+export VERIF_RUNS_DIV=${VERIF_RUNS_DIV:-4}
 : > /tmp/seedmatrix.jsonl
 for d in /verif/seeded/C*-[12]; do
   b=$(basename $d); id=${b%-*}; n=${b#*-}
